@@ -119,13 +119,13 @@ def _base(rng, family, data, splits=None, extra=None):
 ODD_KINDS = ["data_after_response", "connect_no_path", "non_ascii_path", "invalid_utf8_path", "priority_idle_flood",
              "priority_before_headers", "rst_closed", "wu_closed", "continuation", "padded", "req_trailers",
              "ext_connect_no_protocol", "zero_data_flood", "settings_churn", "ping_flood", "huge_header",
-             "empty_header_value", "authority_non_utf8", "dup_pseudo", "rst_open", "data_on_idle_rst"]
+             "empty_header_value", "authority_non_utf8", "dup_pseudo", "rst_open", "data_on_idle_rst", "non_ascii_method"]
 
 # kinds the statement names as "merely unusual or invalid at the HTTP level": siblings must complete
 STREAM_LEVEL = {"data_after_response", "connect_no_path", "non_ascii_path", "invalid_utf8_path", "rst_closed",
                 "wu_closed", "continuation", "padded", "req_trailers", "priority_before_headers",
                 "empty_header_value", "rst_open", "ping_flood", "settings_churn", "huge_header",
-                "priority_idle_flood", "zero_data_flood", "authority_non_utf8"}
+                "priority_idle_flood", "zero_data_flood", "authority_non_utf8", "non_ascii_method"}
 
 
 def _case_grammar(rng, n, kind=None):
@@ -170,6 +170,9 @@ def _case_grammar(rng, n, kind=None):
     elif kind == "non_ascii_path":
         steps.append(["feed", fb.headers(odd_sid, [(b":method", b"GET"), (b":scheme", b"http"),
                                                    (b":path", "/café".encode("utf-8")), (b":authority", b"h.example")], end_stream=True)])
+    elif kind == "non_ascii_method":
+        steps.append(["feed", fb.headers(odd_sid, [(b":method", rng.choice([b"\xd0ET", b"G\xc3\xa9T", b"\xff"])), (b":scheme", b"http"),
+                                                   (b":path", b"/m"), (b":authority", b"h.example")], end_stream=True)])
     elif kind == "invalid_utf8_path":
         steps.append(["feed", fb.headers(odd_sid, [(b":method", b"GET"), (b":scheme", b"http"),
                                                    (b":path", b"/x\xff\xfe"), (b":authority", b"h.example")], end_stream=True)])
@@ -279,6 +282,11 @@ def gen(rng, tier):
                 data = v
             prev["h2"] = v
             yield _base(rng, "h2.mutate", data, extra={"conn": {"tls": True, "alpn": "h2"}} if rng.random() < 0.5 else None)
+        elif r < 0.53:
+            nm = rng.choice([b"Sec-WebSocket-Extensions", b"Sec-WebSocket-Protocol", b"Connection", b"Upgrade", b"Sec-WebSocket-Version", b"Sec-WebSocket-Key"])
+            val = rng.choice([b"caf\xc3\xa9", b"\xff\xfe", b"a, \xe2\x82\xac", b"permessage-deflate; \xd0", b"", b",,,", b"x" * 300])
+            data = ws.handshake(path=b"/t%d" % i, extra=[(nm, val)]) + ws.message_frames(ws.OP_TEXT, b"hi")
+            yield _base(rng, "ws.hdr", data)
         elif r < 0.62:
             v = _valid_ws(rng, i)
             head_end = v.index(b"\r\n\r\n") + 4
@@ -355,7 +363,7 @@ def check(case, obs, tally):
             out.append({"clause": "crash", "sig": "C04.log-format/%s" % short.split(".")[0], "detail": text[:500]})
     if obs.handler == "exception":
         return out
-    if fam in ("h1.mutate", "random", "ws.mutate"):
+    if fam in ("h1.mutate", "random", "ws.mutate", "ws.hdr"):
         hint = _shadow_h11(case, obs)
         if hint is not None:
             tally.clause("hint")
